@@ -431,6 +431,7 @@ func retryable(err error) bool {
 	}
 
 	return errors.Is(err, ErrConnectionClosed) ||
+		errors.Is(err, ErrGoAwayUnprocessed) ||
 		errors.Is(err, ErrNotAvailableStreams) ||
 		errors.Is(err, ErrNoMoreStreamIDs)
 }
